@@ -58,7 +58,6 @@ def drain_before_stop(run, F):
             if t is None: return None
             return (not t) if mode == 'null-means-empty' else t
         empty_edges = edges_where(G, pe)
-        if not empty_edges: raise Broken('%s no longer tests its queue for emptiness' % q)
         stop_edges = edges_where(G, lambda c: truth_of_path(c, lambda p: last_field(p) == flag))
         if not stop_edges: raise Broken('%s no longer tests %s' % (q, flag))
         for t, m in stop_edges:
@@ -271,3 +270,41 @@ def auto_reset_done_absorbing(run, F):
     for n in ws:
         if not notdone or not dominated_by_edges(G2, n, notdone):
             run.violation(f2['qname'], 'done-overwritten', '%s:%s' % (f2['file'], G2.line(n)), 'set() overwrites state_ without testing for DONE: a finished event stream becomes live again')
+
+
+# ------------------------------------------------------------------------------------------ C07 (ordering)
+@rule('R-CB-AFTER-INIT', ['C07', 'C04', 'C02'], floor=3)
+def callback_registered_after_state_init(run, F):
+    """an operation's stop callback is registered only after every member the callback body *writes* has received its start-time value: in start() no assignment to such a member follows the callback's construction on any path (a stop that was already requested runs the callback inline during registration; a later assignment would overwrite what the callback did, e.g. the brought-forward due time)"""
+    from ..inline import Super, TooBig
+    from .dereg import registrations, CONSTRUCT, _targets
+    gcache = {}
+    n = 0
+    for rec, fl in registrations(F):
+        M = fl['name']
+        # functions of this record that construct the callback
+        for f in F.by_record.get(rec['qname'], []):
+            if not f.get('blocks') or f.get('lambda') or f.get('ctor'): continue
+            G = Graph(f)
+            cons = [x for x, e in G.ev.items() if e.get('k') == 'call' and e['callee'].get('name') in CONSTRUCT and _targets(e, M)]
+            if not cons: continue
+            # the callback class: a family record whose operator() writes members of the operation through a stored pointer/reference
+            cb_written = set()
+            for g in F.by_family.get(f['_family'], []):
+                if g['name'] != 'operator()' or g.get('lambda') or not g.get('blocks'): continue
+                if 'callback' not in (g.get('record') or '').lower(): continue
+                try: S = Super(F, g, [f['_family']], graph_cache=gcache, maxdepth=2)
+                except TooBig: continue
+                for i, e in enumerate(S.ev):
+                    if e.get('k') == 'assign' and S.fn[i] is g and len(e['lhs'].split('.')) >= 2 and not e.get('deref'):
+                        cb_written.add(last_field(e['lhs']))
+            if not cb_written: continue
+            n += 1
+            for c in cons:
+                run.inst(site(f, G.line(c)), 'no write to %s after registering %s' % (sorted(cb_written), M), key=(f['qname'], M))
+                for x in G.reach([m for m, lab in G.succ.get(c, []) if lab != 'exc']):
+                    e = G.ev[x]
+                    if e.get('k') == 'assign' and e['lhs'].split('.')[0] == 'this' and last_field(e['lhs']) in cb_written and len(e['lhs'].split('.')) == 2:
+                        run.violation(f['qname'], 'write-after-registration:' + last_field(e['lhs']), '%s:%s' % (f['file'], G.line(x)),
+                                      '%s is assigned after the stop callback %s was registered; the callback (which also writes it) may already have run inline because stop was requested before start(), and this assignment then undoes its effect' % (e['lhs'], M))
+    if n == 0: raise Broken('no operation found whose stop callback writes operation members')
